@@ -146,216 +146,82 @@ def token_big_replay(check, pid, path, work, seed):
 
 
 # ---------------------------------------------------------------------------
-# Coinswap magnitude tier (C01 pool rows, C02 settlement rows).  One harness run
-# (harness-coinswapbig rows) drives the real chain; per history ONE magnitude
-# stratum supplies the pool reserves (hence the share supply) AND every message
-# amount, each scripted operation on a freshly created pool.
-CS_FIELDS = [("S", "Int"), ("T", "Int"), ("L", "Int"), ("S2", "Int"), ("T2", "Int"), ("L2", "Int"),
-             ("hasLeg", "Bool"), ("rin", "Int"), ("rout", "Int"), ("paid", "Int"), ("recv", "Int"),
-             ("fn", "Int"), ("fd", "Int"), ("isBuy", "Bool")]
-CS_STEPOK = """  /\\ ShareValueW(s.S, s.T, s.L, s.S2, s.T2, s.L2)
-  /\\ (s.hasLeg =>
+# Coinswap big-number tier (C01).  The stratified successor of this section (pool rows and C02 settlement rows per
+# magnitude stratum) referred to a harness and a clause module that were never committed (they were lost when the
+# session that wrote them was interrupted), so it evaluated ZERO rows without saying so.  Restored: the tier as
+# committed in 2c75677 — harness-coinswapbig drives the real chain with reserves, shares and trades of all magnitudes
+# and Apalache evaluates the share-value and leg clauses of CoinswapClauses.tla on every row.  An empty row set is
+# inconclusive, never a pass.
+CS_FIELDS = [("kind", "Str"), ("S", "Int"), ("T", "Int"), ("L", "Int"), ("S2", "Int"), ("T2", "Int"), ("L2", "Int"),
+             ("rin", "Int"), ("rout", "Int"), ("paid", "Int"), ("recv", "Int"), ("fn", "Int"), ("fd", "Int"),
+             ("isBuy", "Bool")]
+CS_STEPOK = """  /\\ (s.kind = "share" => ShareValueW(s.S, s.T, s.L, s.S2, s.T2, s.L2))
+  /\\ (s.kind = "leg" =>
         /\\ s.paid >= 0 /\\ s.recv >= 0 /\\ s.recv < s.rout
         /\\ LegRuleW(s.rin, s.rout, s.paid, s.recv, s.fn, s.fd)
         /\\ (s.isBuy => LegOutTightW(s.rin, s.rout, s.paid, s.recv, s.fn, s.fd))
         /\\ (~s.isBuy => LegInMaxW(s.rin, s.rout, s.paid, s.recv, s.fn, s.fd)))"""
 
-CSS_FIELDS = [("name", "Str"), ("isBuy", "Bool"), ("routed", "Bool"), ("created", "Bool"),
-              ("a1", "Int"), ("a2", "Int"), ("m1", "Int"), ("m2", "Int"), ("now", "Int"), ("deadline", "Int"),
-              ("dSndA", "Int"), ("dSndB", "Int"), ("dSndLpt", "Int"), ("dRcpOut", "Int"),
-              ("poolPaid", "Int"), ("poolRecv", "Int"), ("escStd", "Int"), ("escTok", "Int"), ("dSupLpt", "Int"),
-              ("dSndStdX", "Int"), ("dRcpStdX", "Int"), ("fee", "Int"), ("taxNum", "Int"), ("taxDen", "Int"),
-              ("dSupFee", "Int"), ("dFeepool", "Int"), ("others", "Int"), ("supOthers", "Int"), ("consvBad", "Int")]
-# the C02 clauses, per message kind, on the observed deltas (CoinswapSettleClauses.tla);
-# frame / supply / conservation: no other cell, no other supply changed, totals = supplies
-CSS_STEPOK = """  /\\ (s.name # "Donate" => s.others = 0) /\\ s.supOthers = 0 /\\ s.consvBad = 0
-  /\\ (s.name = "Swap" =>
-        /\\ SwapSenderW(s.dSndA, s.poolPaid)
-        /\\ SwapRecipientW(s.dRcpOut, s.poolRecv)
-        /\\ SwapBoundsW(s.isBuy, s.a1, s.a2, s.poolPaid, s.poolRecv, s.now, s.deadline)
-        /\\ (s.routed => s.dSndStdX = 0 /\\ s.dRcpStdX = 0))
-  /\\ (s.name = "Add" =>
-        /\\ AddSettleW(s.a1, s.a2, s.m1, s.dSndA, s.dSndB, s.dSndLpt, s.dSupLpt, s.escStd, s.escTok)
-        /\\ (s.created => CreationFeeW(s.fee, s.taxNum, s.taxDen, s.dSupFee, s.dFeepool)))
-  /\\ (s.name = "AddUni" => AddUniSettleW(s.a1, s.m1, s.dSndA, s.escTok, s.dSndLpt, s.dSupLpt))
-  /\\ (s.name = "Remove" =>
-        RemoveSettleW(s.a1, s.m1, s.m2, s.dSndLpt, s.dSupLpt, s.dSndA, s.dSndB, s.escStd, s.escTok))
-  /\\ (s.name = "RemUni" => RemUniSettleW(s.a1, s.m1, s.dSndLpt, s.dSupLpt, s.dSndA, s.escTok))"""
 
-CS_RULE = ("rows = successful coinswap messages executed on the real chain (ABCI path); per history ONE magnitude stratum "
-           "supplies the pool reserves (hence the share supply) and every message amount, and every operation kind "
-           "(two-sided add into an existing pool, remove, one-sided add/remove in both denoms, sell/buy orders in both "
-           "directions, routed sell/buy, donation) runs on its own freshly created pool, followed by a sequel on the "
-           "drifted pool; strata: <2^31, [2^31,2^32), [2^32,2^53), [2^53,2^63), [2^63,2^64), [2^64,2^65), ~2^96, "
-           "[2^127,2^129), mixed (each operand < 2^64 / 2^63 / 2^128 but products or sums beyond), deep pools with "
-           "everyday amounts, shallow pools with huge amounts; values uniform inside the stratum (low bits non-zero); "
-           "18-decimal fees; rejected messages (incl. recovered 256-bit overflow panics) are counted, not evaluated")
-
-
-def _cs_apalache_rows(workdir, name, extends, fields, rows, stepok, timeout=1500, max_fail=5):
-    """Same contract as vlib.apalache_steps (rows evaluated against StepOK by Apalache/Z3, failing row
-    indexes returned), but every row is its own top-level operator `R<k> == RowOK(<literals>)` instead of
-    an element of one sequence of records: Apalache's type checker is super-linear in the size of one
-    definition (369 rows x 29 fields: 12 min as a sequence, 28 s as separate definitions)."""
-    import re, glob, shutil
-
-    def lit(v, ty):
-        if ty == "Bool":
-            return "TRUE" if v else "FALSE"
-        if ty == "Str":
-            return json.dumps(str(v))
-        return str(int(v))
-    body = stepok
-    for n, _ in fields:
-        body = re.sub(r"\bs\.%s\b" % n, "x_" + n, body)
-    tys = ", ".join(t for _, t in fields)
-    args = ", ".join("x_" + n for n, _ in fields)
-    t0 = time.time()
-    live = list(range(len(rows)))
-    failing = []
-    while live:
-        defs = "\n".join("R%d == RowOK(%s)" % (k + 1, ", ".join(lit(rows[i][n], t) for n, t in fields))
-                         for k, i in enumerate(live))
-        conj = "\n".join("  /\\ (pick = %d => R%d)" % (k + 1, k + 1) for k in range(len(live)))
-        mod = f"""------------------------------ MODULE {name} ------------------------------
-EXTENDS Integers, {extends}
-VARIABLE
-  \\* @type: Int;
-  pick
-\\* @type: ({tys}) => Bool;
-RowOK({args}) ==
-{body}
-{defs}
-Init == pick \\in 1..{len(live)}
-Next == UNCHANGED pick
-Inv ==
-{conj}
-=============================================================================
-"""
-        with open(os.path.join(workdir, name + ".tla"), "w") as f:
-            f.write(mod)
-        outdir = os.path.join(workdir, "_apalache-out")
-        shutil.rmtree(outdir, ignore_errors=True)
-        try:
-            p = subprocess.run(["apalache-mc", "check", "--length=0", "--init=Init", "--next=Next", "--inv=Inv",
-                                f"--out-dir={outdir}", name + ".tla"], cwd=workdir, capture_output=True, text=True,
-                               timeout=timeout, env=dict(os.environ, JVM_ARGS="-Xmx4g"))
-        except subprocess.TimeoutExpired:
-            raise Inconclusive(f"apalache timed out on {name}")
-        out = p.stdout + p.stderr
-        if "The outcome is: NoError" in out:
-            break
-        if "The outcome is: Error" not in out:
-            raise Inconclusive(f"apalache failed on {name}:\n{out[-2000:]}")
-        vio = glob.glob(os.path.join(outdir, "**", "violation1.tla"), recursive=True)
-        m = re.search(r"State0 ==\s*pick = (\d+)", open(vio[0]).read()) if vio else None
-        if not m:
-            raise Inconclusive(f"apalache counterexample not understood for {name}")
-        k = int(m.group(1)) - 1
-        failing.append(live[k])
-        del live[k]
-        if len(failing) >= max_fail:
-            break
-    return len(rows) - len(failing), failing, time.time() - t0
-
-
-def _cs_rows(tier, seed, work, sub, cfg=""):
+def coinswap_big(check, pid, tier, seed, work, rows_file=None):
+    """C01: the real coinswap module driven through the ABCI path with reserves,
+    shares and trades from 1 to ~2^120; per message the pool's (S, T, L) before and
+    after, per swap the leg as seen from the pool."""
     vlib.build_harness("coinswapbig")
+    sub = os.path.join(work, "big")
     os.makedirs(sub, exist_ok=True)
     vlib.copy_specs(sub)
-    n = {"quick": 2 if "createrows" not in cfg else 1, "thorough": 8}[tier]
-    rows_file = os.path.join(sub, "csrows.json")
-    p = subprocess.run([vlib.harness_bin("coinswapbig"), "rows", "-seed", str(seed), "-n", str(n), "-out", rows_file,
-                        "-cfg", cfg], capture_output=True, text=True, timeout=1800)
-    if p.returncode != 0:
-        raise Inconclusive("harness-coinswapbig failed: " + p.stderr[-1000:])
-    return json.load(open(rows_file)), {"seed": seed, "n": n, "cfg": cfg}
-
-
-def _cs_strata(rows, kind):
-    out = {}
-    for r in rows:
-        if r["kind"] == kind:
-            d = out.setdefault(r["stratum"], {"rows": 0, "all_operands_in_stratum": 0})
-            d["rows"] += 1
-            d["all_operands_in_stratum"] += 1 if r.get("pure") else 0
-    for r in rows:
-        if r["kind"] == "rejected":
-            d = out.setdefault(r["stratum"], {"rows": 0, "all_operands_in_stratum": 0})
-            d["rejected"] = d.get("rejected", 0) + 1
-            d["panics"] = d.get("panics", 0) + (1 if r.get("panic") else 0)
-    return out
-
-
-def _cs_eval(pid, tier, seed, work, kind, name, extends, fields, stepok, meta, allrows, describe):
-    sub = os.path.join(work, "big-" + kind)
-    rows = [r for r in allrows if r["kind"] == kind]
-    ok, failing, wall = _cs_apalache_rows(sub, name, extends, fields, rows, stepok)
-    ops = {}
-    for r in rows:
-        ops[r["op"]] = ops.get(r["op"], 0) + 1
-    cov = {"big_steps": len(rows), "big_steps_ok": ok, "big_wall_s": round(wall, 1), "big_rule": CS_RULE,
-           "big_strata": _cs_strata(allrows, kind), "big_ops": ops, "big_samples": rows[:2]}
-    log(f"[big] {len(rows)} {kind} rows in {len(cov['big_strata'])} magnitude strata from the real chain evaluated by "
-        f"Apalache: {ok} ok, {len(failing)} failing ({wall:.0f}s)")
+    n, ln = {"quick": (8, 30), "thorough": (60, 40)}[tier]
+    if rows_file is None:
+        rows_file = os.path.join(sub, "csrows.json")
+        p = subprocess.run([vlib.harness_bin("coinswapbig"), "rows", "-seed", str(seed), "-n", str(n), "-len", str(ln),
+                            "-out", rows_file], capture_output=True, text=True, timeout=1200)
+        if p.returncode != 0:
+            raise Inconclusive("harness-coinswapbig failed: " + p.stderr[-1000:])
+    rows = json.load(open(rows_file))
+    if len(rows) < 20:
+        raise Inconclusive(f"coinswap big-number tier: only {len(rows)} rows were produced")
+    ok, failing, wall = vlib.apalache_steps(sub, "CoinswapBig", "CoinswapClauses", CS_FIELDS, rows, CS_STEPOK)
+    legs = sum(1 for r in rows if r["kind"] == "leg")
+    cov = {"big_steps": len(rows), "big_steps_ok": ok, "big_legs": legs, "big_wall_s": round(wall, 1),
+           "big_rule": "rows = successful coinswap messages executed on the real chain with reserves/shares/trades up to "
+                       "~2^120 and 18-decimal fees; share-value row per message, leg row per swap; clauses of "
+                       "CoinswapClauses.tla evaluated by Apalache 0.58 / Z3",
+           "big_samples": rows[:2]}
+    log(f"[big] {len(rows)} big-number rows ({legs} swap legs) from the real chain evaluated by Apalache: {ok} ok, "
+        f"{len(failing)} failing ({wall:.0f}s)")
     viol = []
     if failing:
         os.makedirs(os.path.join(ROOT, "replays"), exist_ok=True)
         path = os.path.join(ROOT, "replays", f"{pid}-{tier}-seed{seed}{vlib.REPLAY_TAG}.bigrows.json")
-        json.dump(dict(meta, kind=kind, failing=[rows[i] for i in failing]), open(path, "w"), indent=1)
-        viol.append((path, describe(rows[failing[0]])))
+        json.dump({"seed": seed, "n": n, "len": ln, "failing": [rows[i] for i in failing]}, open(path, "w"), indent=1)
+        r = rows[failing[0]]
+        viol.append((path, f"big-number row violates the C01 clauses: {r['op']} ({r['kind']}) history {r['hist']} step {r['step']}: "
+                           f"S,T,L {r['S']},{r['T']},{r['L']} -> {r['S2']},{r['T2']},{r['L2']}; leg rin={r['rin']} rout={r['rout']} "
+                           f"paid={r['paid']} recv={r['recv']} fee={r['fn']}/1e18"))
     return viol, cov
-
-
-def _cs_pool_text(r):
-    return (f"big-number row violates the C01 clauses: {r['op']} in stratum {r['stratum']} (history {r['hist']} step "
-            f"{r['step']}): S,T,L {r['S']},{r['T']},{r['L']} -> {r['S2']},{r['T2']},{r['L2']}; leg rin={r['rin']} "
-            f"rout={r['rout']} paid={r['paid']} recv={r['recv']} fee={r['fn']}/1e18")
-
-
-def _cs_settle_text(r):
-    return (f"big-number settlement row violates the C02 clauses: {r['op']} in stratum {r['stratum']} (history {r['hist']} "
-            f"step {r['step']}): amounts {r['a1']},{r['a2']} bounds {r['m1']},{r['m2']}; sender {r['dSndA']},{r['dSndB']} "
-            f"lpt {r['dSndLpt']} (supply {r['dSupLpt']}); recipient {r['dRcpOut']}; pool paid/recv {r['poolPaid']},"
-            f"{r['poolRecv']} escrow {r['escStd']},{r['escTok']}; other cells {r['others']}, other supplies "
-            f"{r['supOthers']}, unbalanced denoms {r['consvBad']}")
-
-
-def coinswap_big(check, pid, tier, seed, work):
-    """C01: share value and leg clauses on pool rows of every magnitude stratum."""
-    sub = os.path.join(work, "big-pool")
-    rows, meta = _cs_rows(tier, seed, work, sub)
-    return _cs_eval(pid, tier, seed, work, "pool", "CoinswapBig", "CoinswapClauses", CS_FIELDS, CS_STEPOK, meta, rows,
-                    _cs_pool_text)
-
-
-def coinswap_settle_big(check, pid, tier, seed, work):
-    """C02: settlement clauses on the observed balance deltas of every magnitude stratum."""
-    sub = os.path.join(work, "big-settle")
-    rows, meta = _cs_rows(tier, seed, work, sub, cfg="createrows=3")
-    return _cs_eval(pid, tier, seed, work, "settle", "CoinswapSettleBig", "CoinswapSettleClauses", CSS_FIELDS,
-                    CSS_STEPOK, meta, rows, _cs_settle_text)
 
 
 def coinswap_big_replay(check, pid, path, work, seed):
     """Re-run the recorded driver run (same seed and sizes) on the real chain and evaluate again."""
     meta = json.load(open(path))
-    kind = meta.get("kind", "pool")
+    vlib.build_harness("coinswapbig")
     sub = os.path.join(work, "bigreplay")
-    tier = "quick" if meta["n"] <= 1 else "thorough"
-    rows, _ = _cs_rows(tier, meta["seed"], work, sub, cfg=meta.get("cfg", ""))
-    rows = [r for r in rows if r["kind"] == kind]
-    if kind == "pool":
-        ok, failing, wall = _cs_apalache_rows(sub, "CoinswapBig", "CoinswapClauses", CS_FIELDS, rows, CS_STEPOK)
-    else:
-        ok, failing, wall = _cs_apalache_rows(sub, "CoinswapSettleBig", "CoinswapSettleClauses", CSS_FIELDS, rows,
-                                              CSS_STEPOK)
+    os.makedirs(sub, exist_ok=True)
+    vlib.copy_specs(sub)
+    rows_file = os.path.join(sub, "csrows.json")
+    p = subprocess.run([vlib.harness_bin("coinswapbig"), "rows", "-seed", str(meta["seed"]), "-n", str(meta["n"]),
+                        "-len", str(meta["len"]), "-out", rows_file], capture_output=True, text=True, timeout=1200)
+    if p.returncode != 0:
+        raise Inconclusive("harness-coinswapbig failed: " + p.stderr[-1000:])
+    rows = json.load(open(rows_file))
+    ok, failing, wall = vlib.apalache_steps(sub, "CoinswapBig", "CoinswapClauses", CS_FIELDS, rows, CS_STEPOK)
     if failing:
         r = rows[failing[0]]
-        log(f"replay: {r['op']} in stratum {r['stratum']} (history {r['hist']} step {r['step']}) violates the {pid} clauses")
+        log(f"replay: {r['op']} history {r['hist']} step {r['step']} violates the C01 clauses")
         print(f"VIOLATION property={pid} replay={path}", flush=True)
         return 1
-    log(f"replay: all rows satisfy the {pid} clauses")
+    log("replay: all rows satisfy the C01 clauses")
     return 0
 
 
@@ -392,9 +258,6 @@ if "C01" in props.PROPS:
     props.PROPS["C01"].post.append(coinswap_lemmas)
     props.PROPS["C01"].post.append(coinswap_big)
     props.PROPS["C01"].big_replay = coinswap_big_replay
-if "C02" in props.PROPS:
-    props.PROPS["C02"].post.append(coinswap_settle_big)
-    props.PROPS["C02"].big_replay = coinswap_big_replay
 
 def token_lemmas(check, pid, tier, seed, work):
     """Unbounded lemma for the (repaired) LossLessSwap in exact rational arithmetic."""
